@@ -5,6 +5,8 @@
    speaks about the file system, the accept callback, the channel, the connect result or msg_process comes from
    lexec / admission_ops / teardown_ops / connect_result. *)
 let variant = if Sys.getenv_opt "C05_VARIANT" = Some "fixed" then Fixed else AsFound
+(* C05_INJECT = "filtered": the tree drops request datagrams that the connection's peer did not send *)
+let filtered = Sys.getenv_opt "C05_INJECT" = Some "filtered"
 
 let n_of_int i = Z.to_N (z_of_int i)
 let int_of_n x = int_of_z (Z.of_N x)
@@ -21,10 +23,11 @@ type slot = {
   mutable connected : bool;           (* client library connected *)
   mutable established : bool;         (* server side connection exists *)
   mutable pending_sends : int;
+  mutable pending_foreign : int;
 }
 let fresh_slot () = { started = false; real = { c_uid = Z0; c_gid = Z0 }; eff = { c_uid = Z0; c_gid = Z0 }; raw = false;
                       kacc = false; authed = false; peer = None; ord = -1; alive = false; client_up = false;
-                      finned = false; connected = false; established = false; pending_sends = 0 }
+                      finned = false; connected = false; established = false; pending_sends = 0; pending_foreign = 0 }
 
 let maxs = 8
 let slots = Array.init maxs (fun _ -> fresh_slot ())
@@ -85,8 +88,13 @@ let exec_op k o =
    | LAccept (u, g) -> pr "cb accept %d %s %s" k (string_of_z u) (string_of_z g)
    | LRespond _ -> ()
    | LChanAdd | LChanDel -> ()
-   | LPeerSend -> if List.length s'.l_log > List.length s.l_log then pr "cb msg %d" k
+   | LPeerSend | LForeign (_, _) -> if List.length s'.l_log > List.length s.l_log then pr "cb msg %d" k
    | LCb c -> pr "cb %s %d" (cbname c) k)
+
+let deliver sl =
+  for _ = 1 to sl.pending_sends do exec_op sl.ord LPeerSend done;
+  for _ = 1 to sl.pending_foreign do exec_op sl.ord (LForeign (!tr, filtered)) done;
+  sl.pending_sends <- 0; sl.pending_foreign <- 0
 
 let look_at sl =
   (* one server look at the slot's connection *)
@@ -94,17 +102,14 @@ let look_at sl =
     if not sl.client_up then begin
       (* socket transport: the request socket is looked at before the setup socket reports the hang-up, so what
          is queued there is still delivered; shm: the hang-up on the one descriptor comes first *)
-      if !tr = Sock then for _ = 1 to sl.pending_sends do exec_op sl.ord LPeerSend done;
+      if !tr = Sock then deliver sl;
       List.iter (exec_op sl.ord) (teardown_ops !tr);
-      sl.established <- false; sl.pending_sends <- 0
-    end else begin
-      for _ = 1 to sl.pending_sends do exec_op sl.ord LPeerSend done;
-      sl.pending_sends <- 0
-    end
+      sl.established <- false; sl.pending_sends <- 0; sl.pending_foreign <- 0
+    end else deliver sl
   end else begin
-    (* no channel: whatever the peer sent goes nowhere *)
-    if sl.ord >= 0 then for _ = 1 to sl.pending_sends do exec_op sl.ord LPeerSend done;
-    sl.pending_sends <- 0
+    (* no channel: whatever was sent goes nowhere *)
+    if sl.ord >= 0 then deliver sl;
+    sl.pending_sends <- 0; sl.pending_foreign <- 0
   end
 
 let cred_of a b = { c_uid = z_of_string a; c_gid = z_of_string b }
@@ -190,7 +195,7 @@ let () =
             let sa = slots.(i) and sb = slots.(int_of_string b) in
             if not sa.alive then pr "injected %d dead" i
             else if !tr = Sock && sb.established then begin
-              sb.pending_sends <- sb.pending_sends + 1; pr "injected %d ok" i
+              sb.pending_foreign <- sb.pending_foreign + 1; pr "injected %d ok" i
             end else pr "injected %d none" i
           | ["kill"; s] ->
             let sl = slots.(int_of_string s) in
